@@ -47,6 +47,7 @@ def run(ctx):
     lib_ref.singletons(ctx, P)
     lib_ref.borrowed(ctx, P)
     lib_kind2.alloc_err(ctx, P, lambda k, f: True, tus=["module"])
+    lib_kind2.err_var(ctx, P, lambda k, f: True, tus=["module"])
     lib_kind3.error_codes(ctx, P)
     lib_kind.dict_atomic(ctx, P)
     lib_stats.early_exits(ctx, P)
